@@ -174,3 +174,98 @@ Example backslashes_in_lockstep :
   ends_with_bsl m = false /\ strip_sgr (match colorize Examples.demo_sty true [] m with Ok (_, o) => o | Err _ => [] end)
                              = match colorize Examples.demo_sty false [] m with Ok (_, o) => o | Err _ => [1%N] end.
 Proof. vm_compute. split; reflexivity. Qed.
+
+(* ================= "nor the markup of a registered style" (Proofs/MarkupPlainLemmas.v) ================= *)
+(* ansi_plain_strip says what the plain rendering IS: the message with exactly its recognised tags removed (strip_tags), with
+   no escape byte when the message has none.  Whether that text holds a piece that READS like the tag of a style is another
+   matter: it depends on the "<" the message holds outside its tags - the quantifier of the property allows them ("'<'/'>' as
+   plain characters").  occurs p s: p is a piece (infix) of s.
+   (1) When every "<" of the message opens a tag the scanner finds (texts_without_lt: no "<" in the texts between the tags nor
+   behind the last one), the result holds no <t> and no </t> for ANY style name t the table resolves - registered (at
+   construction or added later: the theorem is for every style table) or written inline - and no </>.  For every style table,
+   style stack and message without ESC and backslash; balanced or not (the hypothesis is that the rendering succeeds). *)
+From Clikit Require Import Proofs.MarkupPlainLemmas.
+Theorem plain_emits_no_style_markup : forall sty sk m sk' out,
+  Forall good m -> texts_without_lt m -> colorize sty false sk m = Ok (sk', out) ->
+  (forall t, tag_name t -> resolvable sty t -> ~ occurs (open_tag t) out /\ ~ occurs (close_tag t) out)
+  /\ ~ occurs CLOSE_ANY out.
+Proof. exact plain_holds_no_style_markup. Qed.
+Print Assumptions plain_emits_no_style_markup.
+(* a style registered in the table is one the table resolves *)
+Theorem registered_styles_resolve : forall sty t p, aget str_eqb (py_lower t) sty = Some p -> resolvable sty t.
+Proof. exact registered_resolves. Qed.
+Print Assumptions registered_styles_resolve.
+(* through the formatters: remove_format of the plain and of the ANSI formatter, format of the plain one ... *)
+Theorem remove_format_emits_no_style_markup : forall f m f' out, f_kind f <> FNull ->
+  Forall good m -> texts_without_lt m -> remove_format f m = Ok (f', out) ->
+  (forall t, tag_name t -> resolvable (f_styles f) t -> ~ occurs (open_tag t) out /\ ~ occurs (close_tag t) out) /\ ~ occurs CLOSE_ANY out.
+Proof. exact remove_format_holds_no_style_markup. Qed.
+Print Assumptions remove_format_emits_no_style_markup.
+Theorem format_plain_emits_no_style_markup : forall f m style f' out, f_kind f = FPlain ->
+  Forall good m -> texts_without_lt m -> format f m style = Ok (f', out) ->
+  (forall t, tag_name t -> resolvable (f_styles f) t -> ~ occurs (open_tag t) out /\ ~ occurs (close_tag t) out) /\ ~ occurs CLOSE_ANY out.
+Proof. exact format_plain_holds_no_style_markup. Qed.
+Print Assumptions format_plain_emits_no_style_markup.
+(* ... and at the stream: write_line on an undecorated output (formatting off, plain formatter, not a section, unindented)
+   appends the text and ONE line break; the text holds no escape byte and no style markup *)
+Theorem undecorated_write_line_emits_neither_escape_nor_markup : forall o s o',
+  o_on o = false -> o_sec o = false -> (o_indent o <= 0)%Z -> f_kind (o_fmt o) = FPlain ->
+  Forall good s -> texts_without_lt s -> do_write o WWriteLine s = Ok o' ->
+  exists out, o_buf o' = o_buf o ++ out ++ [NL] /\ no_esc out /\
+    (forall t, tag_name t -> resolvable (f_styles (o_fmt o)) t -> ~ occurs (open_tag t) out /\ ~ occurs (close_tag t) out) /\
+    ~ occurs CLOSE_ANY out.
+Proof. exact write_line_holds_no_style_markup. Qed.
+Print Assumptions undecorated_write_line_emits_neither_escape_nor_markup.
+Theorem texts_without_lt_decided : forall m, texts_without_ltb m = true -> texts_without_lt m.
+Proof. exact texts_without_ltb_ok. Qed.
+Print Assumptions texts_without_lt_decided.
+Theorem occursb_decides : forall p s, occursb p s = true <-> occurs p s.
+Proof. exact occursb_spec. Qed.
+Print Assumptions occursb_decides.
+(* non-vacuity: "a <b>x <fg=red>y</></b> <nope>z" - nested named and inline styles, an unknown tag, no stray "<" - meets the
+   hypotheses on the style table with clikit's <b>; the plain rendering is "a x y <nope>z": the unknown tag stays, no <b> *)
+Definition ex_wf_msg : str := [97;32;60;98;62;120;32;60;102;103;61;114;101;100;62;121;60;47;62;60;47;98;62;32;60;110;111;112;101;62;122]%N.
+Example plain_emits_no_style_markup_instance :
+  Forall good ex_wf_msg /\ texts_without_ltb ex_wf_msg = true /\
+  colorize Examples.demo_sty false [] ex_wf_msg = Ok ([], [97;32;120;32;121;32;60;110;111;112;101;62;122]%N) /\
+  tag_name st_b /\ resolvable Examples.demo_sty st_b.
+Proof.
+  split; [repeat constructor; discriminate|]. split; [vm_compute; reflexivity|]. split; [vm_compute; reflexivity|].
+  split; [repeat constructor|exact Examples.resolve_b].
+Qed.
+
+(* (2) REFUTED without "no stray <" - for a message with BALANCED tags, inside the quantifier of the property.
+   "<<b></b>b>": the plain character "<", the balanced pair <b></b> around nothing, the plain characters "b>".  The scanner finds
+   the two tags; both renderings succeed and leave the style stack empty; the decorated rendering with its escape sequences
+   stripped, the plain rendering and the tag-stripped text are the same string - the first half of the property holds - and
+   that string is "<b>": it READS like the opening tag of the registered style b.
+   Observed alike on pastel / clikit (PlainFormatter().format / .remove_format("<<b></b>b>") = "<b>"; AnsiFormatter stripped of
+   ESC[...m the same; a BufferedIO with a PlainFormatter: write_line writes "<b>" and the line break).
+   A READING, not a defect: every tag the message carried was removed (strip_tags); the characters that spell "<b>" are plain
+   characters of the message.  "never emits the markup of a registered style" is claimed in this sense (ansi_plain_strip:
+   the output is the message without its recognised tags) and, for messages whose "<" all open tags, in the literal sense
+   (plain_emits_no_style_markup). *)
+Definition ex_respell : str := [60;60;98;62;60;47;98;62;98;62]%N.   (* <<b></b>b> *)
+Theorem plain_can_spell_a_style_tag_refuted :
+  exists sty m t p, Forall good m /\ tag_name t /\ aget str_eqb (py_lower t) sty = Some p /\
+    (* balanced: both renderings succeed from the empty style stack and leave it empty *)
+    (exists o1, colorize sty true [] m = Ok ([], o1) /\ strip_sgr o1 = strip_tags sty m) /\
+    colorize sty false [] m = Ok ([], strip_tags sty m) /\
+    occurs (open_tag t) (strip_tags sty m) /\ texts_without_ltb m = false.
+Proof.
+  exists Examples.demo_sty, ex_respell, st_b. eexists. split; [repeat constructor; discriminate|]. split; [repeat constructor|].
+  split; [vm_compute; reflexivity|]. split; [eexists; split; vm_compute; reflexivity|]. split; [vm_compute; reflexivity|].
+  split; [apply occursb_spec; vm_compute; reflexivity|vm_compute; reflexivity].
+Qed.
+Print Assumptions plain_can_spell_a_style_tag_refuted.
+(* the stream-level statement applied: an undecorated, unindented output with the plain formatter over clikit's <b> *)
+Definition ex_plain_out : outp :=
+  {| o_indent := 0; o_on := false; o_sec := false;
+     o_fmt := match new_formatter FPlain [Examples.cs_b] with Ok f => f | Err _ => {| f_kind := FNull; f_styles := []; f_stack := [] |} end;
+     o_buf := [] |}.
+Example undecorated_write_line_instance :
+  f_kind (o_fmt ex_plain_out) = FPlain /\
+  match do_write ex_plain_out WWriteLine ex_wf_msg with
+  | Ok o' => str_eqb (o_buf o') ([97;32;120;32;121;32;60;110;111;112;101;62;122;10]%N)    (* a x y <nope>z NL *)
+  | Err _ => false end = true.
+Proof. vm_compute. split; reflexivity. Qed.
